@@ -343,6 +343,8 @@ def random_ast(rng, size, vals=3, half_bounds=False):
             if b[0] == "lit" and b[1] in (0, 1):
                 b = ("lit", 2)
             if rng.random() < 0.3 and b[0] == "lit":
+                if op == "sub" and half_bounds:  # `0 - x` is NOT an identity: keep it in the fragment
+                    b = ("lit", rng.choice([0, 0, b[1]]))
                 return ("bin", op, b, a)
             return ("bin", op, a, b)
         if kind == "un":
@@ -455,7 +457,7 @@ def exhaustive_core():
         ("uniform", [X, ("lit", 2)]), ("uniform", [X, X, ("lit", 0)]),
         ("discrete", [(X, 2), (("lit", 5), 1)]), ("resample", X),
         ("bin", "add", X, X), ("bin", "sub", X, ("resample", X)), ("bin", "mul", X, ("lit", 2)),
-        ("bin", "sub", ("lit", 2), X), ("un", "neg", X),
+        ("bin", "sub", ("lit", 2), X), ("bin", "sub", ("lit", 0), X), ("un", "neg", X),
         ("call", "vite", [X, ("lit", 1)], [("b", ("lit", 4))]),
         ("call", "vmin", [X], [("b", ("drange", ("lit", 0), ("lit", 2)))]),
         ("uniform", [X, ("resample", X)]),
